@@ -61,6 +61,24 @@ def file_schema(prog: Program, ci: ClassInfo) -> DV | None:
     return DictInterp(prog, ci, "to_dict").run(fi)
 
 
+def _schema_diff(a, b, prefix: str = "") -> list[str]:
+    out = []
+    if not isinstance(a, DV) or not isinstance(b, DV):
+        if isinstance(a, EV) and isinstance(b, EV) and norm(a.expr) != norm(b.expr):
+            out.append(f"{prefix}: `{norm(a.expr)}` vs `{norm(b.expr)}`")
+        elif type(a) is not type(b):
+            out.append(f"{prefix}: shape differs")
+        return out
+    for k in sorted(set(a.items) | set(b.items)):
+        if k not in a.items:
+            out.append(f"{prefix}{k} missing from the file dictionary")
+        elif k not in b.items:
+            out.append(f"{prefix}{k} only in the file dictionary")
+        else:
+            out += _schema_diff(a.items[k], b.items[k], f"{prefix}{k}.")
+    return out
+
+
 def run(prog: Program, L: Ledger) -> None:
     L.explanation = (
         "C07 is a behavioural statement (step-for-step equality of a resumed run); decided here are structural necessary "
@@ -108,8 +126,13 @@ def run(prog: Program, L: Ledger) -> None:
         fe = file_entry(prog, d)
         if fe is None:
             continue
-        if not any(s[3] == d and s[1] == "todict" for s in stale):
-            L.ok("T1", f"{d.name}.todict", fe.where)
+        if any(s[3] == d and s[1] == "todict" for s in stale):
+            continue
+        # semantic comparison: what the writer emits vs what the most-derived to_dict emits
+        diff = _schema_diff(file_schema(prog, d), emitted_schema(prog, d))
+        L.check(not diff, "T1", f"{d.name}.todict", fe.where,
+                f"the restart writer's entry point for {d.name} ({fe.qualname}) does not produce what {d.name}'s most-derived to_dict produces: {'; '.join(diff[:4])}",
+                f"{d.name}(...).todict() != {d.name}(...).to_dict(): the restart file is incomplete", "todict")
 
     # ------------------------------------------------------------ T2 / T3 / T4
     for d in drivers:
